@@ -174,4 +174,44 @@ def shutdownOrderOk (xs : List String) : Bool :=
   (xs.reverse.dropWhile (fun x => x.startsWith "call:")).head? == some "aw:state" &&
   noneBefore xs "call:Service.close" touchesShared
 
+/-! ## what the policies buy: a minimal happens-before reading
+
+An execution is a list of memory events in an order consistent with program order and with the one
+mutex.  Each event names its goroutine, the location, whether it writes, whether it is a
+`sync/atomic` operation, and — when the mutex is held — the number of the critical section it lies
+in (sections are numbered in the order the mutex was acquired).  Happens-before: program order,
+and "an earlier critical section's unlock before a later one's lock". -/
+
+structure Ev where
+  thread : Nat
+  loc : Nat
+  write : Bool
+  atomic : Bool
+  cs : Option Nat
+deriving Repr, DecidableEq
+
+/-- the events respect the mutex: section numbers never decrease along the execution, and one section
+belongs to one goroutine -/
+def MutexOrdered (tr : List Ev) : Prop :=
+  ∀ (i j : Nat) (ei ej : Ev), i < j → tr[i]? = some ei → tr[j]? = some ej →
+    ∀ (a b : Nat), ei.cs = some a → ej.cs = some b → a ≤ b ∧ (a = b → ei.thread = ej.thread)
+
+/-- event `i` happens before event `j` (one step of the relation is enough for the theorem) -/
+def HB (tr : List Ev) (i j : Nat) : Prop :=
+  ∃ (ei ej : Ev), i < j ∧ tr[i]? = some ei ∧ tr[j]? = some ej ∧
+    (ei.thread = ej.thread ∨ ∃ a b, ei.cs = some a ∧ ej.cs = some b ∧ a < b)
+
+/-- a data race on `x`: two accesses by different goroutines, at least one a write, not both atomic,
+neither ordered before the other -/
+def Race (tr : List Ev) (x : Nat) : Prop :=
+  ∃ (i j : Nat) (ei ej : Ev), i < j ∧ tr[i]? = some ei ∧ tr[j]? = some ej ∧ ei.loc = x ∧ ej.loc = x ∧
+    (ei.write = true ∨ ej.write = true) ∧ ¬ (ei.atomic = true ∧ ej.atomic = true) ∧
+    ei.thread ≠ ej.thread ∧ ¬ HB tr i j
+
+/-- the `guarded` policy: every access to `x` lies in a critical section -/
+def Guarded (tr : List Ev) (x : Nat) : Prop := ∀ e ∈ tr, e.loc = x → e.cs.isSome
+
+/-- the `atomicOnly` policy -/
+def AtomicOnly (tr : List Ev) (x : Nat) : Prop := ∀ e ∈ tr, e.loc = x → e.atomic = true
+
 end GoRes.Discipline
